@@ -49,6 +49,7 @@ pub mod verif_facade {
                     }
                 }
                 "sched" => crate::work::verif_sched::sched(&args),
+                "dirty1" => crate::work::verif_dirty::dirty1(&args),
                 "load" => crate::load::verif_load_text(arg(0)),
                 "canon" => {
                     let mut s = unsafe { String::from_utf8_unchecked(arg(0)) };
